@@ -125,6 +125,9 @@ def variations(rng, payload, fill, budget, exhaustive_cuts):
         yield ('suffix+str', suf.decode()), dict(suffix=suf, as_str=True)
     for tag in ('s:2573535,c:1671533231', 'g:1-1-77', 'c:1'):
         yield ('tagblock', tag), dict(tag=tag)
+    long_tag = 'c:1671533231,s:' + 'STATION-' * 20 + ',t:' + 'x' * 60           # 240 characters of tag block
+    yield ('tagblock-long', len(long_tag)), dict(tag=long_tag)
+    yield ('tagblock-long+suffix', len(long_tag)), dict(tag=long_tag, suffix=b' ' * 90 + b'\r\n')
     for tag in ('s:G\u00f6teborg,c:1671533231', 't:\u20ac \u6e2f'):          # free text in a tag block is not confined to ASCII
         yield ('tagblock-non-ascii', tag), dict(tag=tag)
         yield ('tagblock-non-ascii+str', tag), dict(tag=tag, as_str=True)
